@@ -148,9 +148,10 @@ theorem walk_path {st : State} (hI : Inv st) : ∀ (cp : List Name) (i j : Nat) 
         have := walk_path hI cs k j (pp ++ [c]) (path_child hI ho hd hp) hw
         simpa using this
 
-/-- The restrictions beyond the property's quantifier under which soundness is proved: no base
-classes (attribute lookup through the MRO is C05's subject), and no `__all__` re-export moves. -/
-def Restricted (proj : Project) : Bool := noBases proj && noReexport proj
+/-- The restriction beyond the property's quantifier under which soundness is proved: no `__all__`
+re-export moves.  (Base classes are allowed; the theorem then speaks of the names whose class steps
+stay in the classes' own namespaces, `PyImp.pyOwn`.) -/
+def Restricted (proj : Project) : Bool := noReexport proj
 
 /-- `a.py`: `class K`; `b.py`: `from a import K` -/
 def exProjW : Project :=
@@ -162,13 +163,16 @@ FULL STATEMENT (the property, at the level of the abstract project):
   theorem resolve_sound (proj) (rank) (hq : WFq proj rank)      -- acyclic, unique names, bound once per scope
       : pdResolve proj ordPd m cp name = some i₁ → pyDenotes proj ordPy m cp name = some i₂ → i₁ = i₂
 
-where `WFq` = `WF` without `noBases` and `noReexport`.  Proved below with these two restrictions (`WF`
-contains them: `Restricted`); nothing else is assumed: that the analysis of a `WF` project raises no
-registry exception, handles no duplicate definition, fails no assertion and does not run out of fuel
-is `run_clean` (PdProps/C04Clean.lean), for every processing order.  With base classes the statement
-was FALSE of pydoctor until commit b8619e6 (a class attribute was looked up in the scopes enclosing the
-class statement before the inherited members: `M.resolveName('C.s')` gave `D.K1` where Python gives
-`D.K2`); that defect was found with this model, see notes/C04.md.
+where `WFq` = `WF` without `noReexport`.  Proved below
+* with the restriction `noReexport` (`Restricted`), and
+* for the names that do not involve an INHERITED member (`pyOwn`: every attribute step through a class
+  finds the attribute in that class's own namespace — exactly the names `vars()` reports).  Projects
+  may contain base classes; for names that go through inheritance the statement is FALSE on the
+  current tree (`resolve_sound_bases_counterexample` below; an earlier defect of the same family was
+  fixed as b8619e6).
+Nothing else is assumed: that the analysis of a `WF` project raises no registry exception, handles no
+duplicate definition, fails no assertion and does not run out of fuel is `run_clean`
+(PdProps/C04Clean.lean), for every processing order.
 -/
 
 /-- **a well-formed project is analysed cleanly**: no registry exception, no duplicate definition, no
@@ -187,11 +191,12 @@ object.  Equivalently: `pdResolve … = some obj → pyDenotes … ≠ none → 
 theorem resolve_sound_partial (proj : Project) (rank : List Nat) (hwf : WF proj rank = true)
     (ordPd ordPy : List Nat)
     (m : Nat) (hm : m < proj.length) (cp : List Name) (name : Path) (i₁ i₂ : Ident)
-    (h1 : pdResolve proj ordPd m cp name = some i₁) (h2 : PyImp.pyDenotes proj ordPy m cp name = some i₂) :
+    (h1 : pdResolve proj ordPd m cp name = some i₁) (h2 : PyImp.pyDenotes proj ordPy m cp name = some i₂)
+    (hown : PyImp.pyOwn proj ordPy m cp name = true) :
     i₁ = i₂ := by
   have wf := WF.facts hwf
   obtain ⟨hI, hn, _⟩ := run_ok wf ordPd (run_clean hwf ordPd)
-  obtain ⟨S, sv, hcase, hj, hid⟩ := pyDenotes_j wf h2
+  obtain ⟨S, sv, hcase, hj, hid⟩ := pyDenotes_j wf h2 hown
   unfold pdResolve resolveIn at h1
   generalize run proj ordPd = s at hI hn h1
   cases hw : walk s.reg m cp with
@@ -235,15 +240,24 @@ end Imports
 namespace Imports
 open Registry
 
+/-- soundness without the `pyOwn` hypothesis, for projects that have no base classes (every attribute
+of a class is its own there): the statement of the first version of this theorem -/
+theorem resolve_sound_nobases (proj : Project) (rank : List Nat) (hwf : WF proj rank = true)
+    (hnb : noBases proj = true) (ordPd ordPy : List Nat)
+    (m : Nat) (hm : m < proj.length) (cp : List Name) (name : Path) (i₁ i₂ : Ident)
+    (h1 : pdResolve proj ordPd m cp name = some i₁) (h2 : PyImp.pyDenotes proj ordPy m cp name = some i₂) :
+    i₁ = i₂ :=
+  resolve_sound_partial proj rank hwf ordPd ordPy m hm cp name i₁ i₂ h1 h2 (pyOwn_of_noBases (WF.facts hwf) hnb h2)
+
 /-- what pydoctor resolves a Python-bound name to does not depend on the order in which the modules
 are processed (C06 for name resolution, on well-formed projects) -/
 theorem resolve_order_independent (proj : Project) (rank : List Nat) (hwf : WF proj rank = true)
     (ord₁ ord₂ ordPy : List Nat)
     (m : Nat) (hm : m < proj.length) (cp : List Name) (name : Path) (a b c : Ident)
     (h1 : pdResolve proj ord₁ m cp name = some a) (h2 : pdResolve proj ord₂ m cp name = some b)
-    (hpy : PyImp.pyDenotes proj ordPy m cp name = some c) : a = b :=
-  (resolve_sound_partial proj rank hwf ord₁ ordPy m hm cp name a c h1 hpy).trans
-    (resolve_sound_partial proj rank hwf ord₂ ordPy m hm cp name b c h2 hpy).symm
+    (hpy : PyImp.pyDenotes proj ordPy m cp name = some c) (hown : PyImp.pyOwn proj ordPy m cp name = true) : a = b :=
+  (resolve_sound_partial proj rank hwf ord₁ ordPy m hm cp name a c h1 hpy hown).trans
+    (resolve_sound_partial proj rank hwf ord₂ ordPy m hm cp name b c h2 hpy hown).symm
 
 /-! ## completeness at the level of the project -/
 
@@ -458,6 +472,32 @@ example : pdResolve exProj exOrd 5 [] [['m','m'], ['f']] = some (.dfn (pathOf ex
     (M := [['p','a'],['m','1']]) (al := ['m','m']) (n := ['f']) (by simp [bodyOf, exProj]) (by decide +kernel)
     (st := .funcDef ['f']) (by simp [bodyOf, exProj]) rfl
 
+/-! ### … and a project WITH base classes: `resolve_sound_partial` applies to every own attribute -/
+
+/-- ```
+D.py   class K: (def g)
+M.py   from D import K
+       class B(K): W = 1
+       class C(B): V = 2 ; class In(B): U = 3
+``` -/
+def exInherit : Project := [
+  ⟨[['D']], false, [.classDef ['K'] [] [.funcDef ['g']]]⟩,
+  ⟨[['M']], false, [.importFrom 0 [['D']] ['K'] none,
+                    .classDef ['B'] [[['K']]] [.assign ['W'] 1],
+                    .classDef ['C'] [[['B']]] [.assign ['V'] 2, .classDef ['I','n'] [[['B']]] [.assign ['U'] 3]]]⟩ ]
+
+example : WF exInherit [0, 1] = true := by decide +kernel
+example : noBases exInherit = false := by decide +kernel
+example : pdResolve exInherit [0, 1] 1 [] [['C'], ['I','n'], ['U']] = some (.dfn [['M'], ['C'], ['I','n'], ['U']]) := by
+  decide +kernel
+example : PyImp.pyDenotes exInherit [1, 0] 1 [] [['C'], ['I','n'], ['U']] = some (.dfn [['M'], ['C'], ['I','n'], ['U']]) := by
+  decide +kernel
+example : PyImp.pyOwn exInherit [1, 0] 1 [] [['C'], ['I','n'], ['U']] = true := by decide +kernel
+-- the inherited `C.g` is outside `pyOwn` (both sides happen to agree on it)
+example : PyImp.pyOwn exInherit [0, 1] 1 [] [['C'], ['g']] = false := by decide +kernel
+example : pdResolve exInherit [0, 1] 1 [] [['C'], ['g']] = PyImp.pyDenotes exInherit [0, 1] 1 [] [['C'], ['g']] := by
+  decide +kernel
+
 /-! ## why the statement speaks of BOUND names
 
 `pdResolve … = some obj → pyDenotes … = some obj` without "Python binds the name" is false, also
@@ -484,17 +524,12 @@ open Registry
 
 /-! ## base classes: the full statement is still false
 
-With `noBases` lifted (every other component of `WF` kept) soundness FAILS on the current tree:
+For names that go through an INHERITED member (`pyOwn = false`) soundness FAILS on the current tree:
 `Class.find`, which `expandName` uses for inherited members, only looks at the `contents` of the classes
 of the MRO, never at the names their bodies import.  An earlier base that binds the name by an import is
 skipped, a later base that defines it wins; Python takes the first class of `__mro__` whose namespace
 has the name.  (Finding `unsound:inherited-attribute:base-import-skipped`, replayed on the real pydoctor
 and CPython by harness/props/c04.py; proposed fix fixes/C04-inherited-lookup-sees-base-imports.diff.) -/
-
-/-- `WF` without the restriction `noBases` -/
-def WFb (proj : Project) (rank : List Nat) : Bool :=
-  modulesOk proj && pathsUnique proj && importsOk proj rank && boundOnce proj rank &&
-  noStarInClass proj && noReexport proj && rootsReserved proj && namesOk proj
 
 /-- ```
 D.py   class K
@@ -509,7 +544,8 @@ def exBases : Project := [
                     .classDef ['C'] [[['B']], [['B','2']]] []]⟩ ]
 
 theorem resolve_sound_bases_counterexample :
-    WFb exBases [0, 1] = true ∧ (run exBases [0, 1]).bad = false ∧ (PyImp.run exBases [0, 1]).err = false ∧
+    WF exBases [0, 1] = true ∧ (PyImp.run exBases [0, 1]).err = false ∧
+    PyImp.pyOwn exBases [0, 1] 1 [] [['C'], ['y']] = false ∧
     pdResolve exBases [0, 1] 1 [] [['C'], ['y']] = some (.dfn [['M'], ['B','2'], ['y']]) ∧
     PyImp.pyDenotes exBases [0, 1] 1 [] [['C'], ['y']] = some (.dfn [['D'], ['K']]) := by
   decide +kernel
